@@ -209,6 +209,11 @@ func crashSite(stack string) string {
 			strings.HasPrefix(fn, "reflect.") || strings.HasPrefix(fn, "sort.") || strings.HasPrefix(fn, "slices.") {
 			continue
 		}
+		// generic tree walkers are skipped: the site is the rule / function that started the walk
+		if strings.HasSuffix(fn, "go-mysql-server/sql.Walk") || strings.Contains(fn, "go-mysql-server/sql.inspector") || strings.HasSuffix(fn, "go-mysql-server/sql.Inspect") ||
+			strings.Contains(fn, "go-mysql-server/sql/transform.") {
+			continue
+		}
 		fn = strings.TrimPrefix(fn, "github.com/dolthub/go-mysql-server/")
 		fn = strings.TrimPrefix(fn, "github.com/dolthub/go-mysql-server.")
 		// closures: keep the enclosing function
